@@ -8,22 +8,22 @@ package main
 var expectedRules = map[string][]string{
 	"C01": {"hash-transcripts", "role-byte-wire", "key-wiring", "algorithm-tables", "driver-order"},
 	"C02": {"rakp2-authcode-verified", "rakp4-icv-verified", "mismatch-errors", "key-wiring", "algorithm-tables", "handshake-reply-validated", "handshake-decoders-in-bounds"},
-	"C03": {"session-wrapper-literal", "layer-stack", "serialize-options", "sent-only-if-serialised", "fresh-layers", "integrity-trailer-order", "integrity-pad-congruence", "integrity-pad-bytes", "aes-iv-and-pad", "aes-pad-convention", "hash-always-reset", "algorithm-tables", "buffer-views", "session-header-layout", "message-layout", "build-literals"},
-	"C04": {"accept-authenticated", "accept-session-id", "signature-verified", "signature-operands", "pad-validated", "reject-undecodable", "retry-failure-returned"},
+	"C03": {"session-wrapper-literal", "layer-stack", "serialize-options", "sent-only-if-serialised", "fresh-layers", "integrity-trailer-order", "integrity-pad-congruence", "integrity-pad-bytes", "aes-iv-and-pad", "aes-pad-convention", "hash-always-reset", "algorithm-tables", "package-tables-read-only", "one-write-one-read", "buffer-views", "session-header-layout", "message-layout", "build-literals"},
+	"C04": {"accept-authenticated", "accept-session-id", "signature-verified", "signature-operands", "pad-validated", "reject-undecodable", "retry-failure-returned", "send-sites", "algorithm-tables", "errors-examined"},
 	"C05": {"entry-points", "in-bounds", "loops-terminate", "field-facts", "layers-consume-input", "nil-hash-guarded", "chunk-loop"},
-	"C06": {"request-layouts", "message-layout", "session-header-layout", "driver-order", "helper-request-fields", "operation-table", "request-passed-whole", "command-bindings", "build-literals", "fresh-layers", "open-session-payload-order", "username-guard", "username-encoding"},
-	"C07": {"response-layouts", "decoders-overwrite", "id-string-header", "latin1-is-a-copy", "dcmi-version-guards", "rejected-layers-not-added", "accepts-minimal-encoding", "checksums-verified", "wrappers-in-bounds", "v1-length-honoured"},
+	"C06": {"request-layouts", "message-layout", "session-header-layout", "driver-order", "helper-request-fields", "package-tables-read-only", "operation-table", "request-passed-whole", "command-bindings", "build-literals", "fresh-layers", "open-session-payload-order", "username-guard", "username-encoding"},
+	"C07": {"response-layouts", "decoders-overwrite", "id-string-header", "latin1-is-a-copy", "packed-string-extraction", "dcmi-version-guards", "rejected-layers-not-added", "response-always-decoded", "accepts-minimal-encoding", "checksums-verified", "wrappers-in-bounds", "v1-length-honoured"},
 	"C08": {"mutual-inverse", "serialiser-writes-every-byte", "serialisers-overwrite", "buffer-views", "decoder-accepts-serialised", "decoded-pad-consistent", "aes-pad-convention", "aes-pad-arithmetic", "decode-overwrites-everything"},
-	"C09": {"counter-writers", "inc-before-send", "sequence-is-incremented-counter", "inc-implies-send", "sessionless-null-wrapper", "sessionless-serialised-afresh", "one-write-one-read"},
-	"C10": {"temporary-codes", "closure-exits", "temporary-tested", "terminal-error-returned", "backoff-policy-default", "reset-before-retry", "code-from-message-layer", "fresh-layers", "retry-bounded-by-context", "reply-matches-request", "retry-failure-returned", "one-write-one-read"},
+	"C09": {"counter-writers", "inc-before-send", "sequence-is-incremented-counter", "inc-implies-send", "sessionless-null-wrapper", "sessionless-serialised-afresh", "one-write-one-read", "send-sites"},
+	"C10": {"temporary-codes", "closure-exits", "temporary-tested", "terminal-error-returned", "backoff-policy-default", "reset-before-retry", "code-from-message-layer", "fresh-layers", "retry-bounded-by-context", "reply-matches-request", "retry-failure-returned", "one-write-one-read", "send-sites", "context-undiminished"},
 	"C11": {"reply-matches-request", "one-write-one-read", "retry-failure-returned"},
-	"C12": {"default-suites", "selector", "proposal", "confirmation", "response-algorithm-layout", "recorded", "algorithm-tables", "no-nil-algorithm", "chunk-loop", "parser-errors", "record-grammar", "expansion-order", "parser-progress"},
-	"C13": {"closure-exits", "temporary-tested", "terminal-error-returned", "errors-examined", "socket-deadlines", "per-attempt-timeout", "retry-bounded-by-context", "ctx-threading", "no-other-blocking", "loops-ctx-bound", "walk-errors-abort", "retry-failure-returned"},
-	"C14": {"id-string-header", "latin1-is-a-copy", "key-is-record-id", "value-is-decoded-record", "store-guards", "reservation", "next-chain", "walk-errors-abort", "retrieval-errors-examined", "errors-abort", "consistent-snapshot", "snapshots-distinct"},
-	"C15": {"formula", "linearisers", "analog-parsers", "linearisation-classes", "reader-selection", "constructor-errors", "read-flags", "reading-flags-layout", "record-factors-layout"},
-	"C16": {"chunk-loop", "parser-errors", "record-grammar", "expansion-order", "parser-progress", "entity-tables", "fallback", "per-entity-map", "instance-paging", "page-decoders-overwrite"},
-	"C17": {"definite-assignment", "fresh-layers", "serialisers-overwrite", "hash-always-reset", "closure-exits", "temporary-tested", "terminal-error-returned", "response-always-decoded", "code-after-exchange"},
-	"C18": {"metrics-resolved", "sendcommand-accounting", "payload-closure-silent", "closure-accounting", "first-attempt-flag", "close-accounting", "open-accounting", "no-stray-updates"},
+	"C12": {"default-suites", "preferences-unaltered", "selector", "proposal", "confirmation", "response-algorithm-layout", "recorded", "algorithm-tables", "no-nil-algorithm", "chunk-loop", "parser-errors", "record-grammar", "expansion-order", "parser-progress"},
+	"C13": {"closure-exits", "temporary-tested", "terminal-error-returned", "errors-examined", "socket-deadlines", "per-attempt-timeout", "retry-bounded-by-context", "ctx-threading", "context-undiminished", "no-other-blocking", "loops-ctx-bound", "walk-errors-abort", "retry-failure-returned", "send-sites", "success-needs-exchange"},
+	"C14": {"id-string-header", "latin1-is-a-copy", "temporary-codes", "key-is-record-id", "value-is-decoded-record", "store-guards", "reservation", "next-chain", "walk-errors-abort", "retrieval-errors-examined", "errors-abort", "consistent-snapshot", "snapshots-distinct"},
+	"C15": {"formula", "linearisers", "analog-parsers", "linearisation-classes", "reader-selection", "constructor-errors", "response-always-decoded", "read-flags", "reading-flags-layout", "record-factors-layout"},
+	"C16": {"chunk-loop", "parser-errors", "record-grammar", "expansion-order", "parser-progress", "entity-tables", "fallback", "per-entity-map", "instance-paging", "page-decoders-overwrite", "paging-wire-layouts"},
+	"C17": {"definite-assignment", "fresh-layers", "serialisers-overwrite", "hash-always-reset", "closure-exits", "temporary-tested", "terminal-error-returned", "chunk-loop", "walk-fills-own-map", "response-always-decoded", "code-after-exchange"},
+	"C18": {"metrics-resolved", "sendcommand-accounting", "payload-closure-silent", "closure-accounting", "first-attempt-flag", "close-accounting", "open-accounting", "no-stray-updates", "send-sites"},
 	"C19": {"globals-census", "no-writes-to-package-state", "allow-listed-writer", "taint-positive-control", "accessor-taint", "no-goroutines"},
-	"C20": {"bcd-plus-table", "decoder-table", "latin1-is-a-copy", "empty-string-decodes", "entity-instance-classes", "entity-instance-boundaries", "twos-complement-widths", "time-unit-table", "period-encoder-arms", "period-byte-on-the-wire", "extension-parsers", "twos-is-sign-extension", "bcd-normal-form", "string-decoders-in-bounds", "checksum-shape"},
+	"C20": {"bcd-plus-table", "decoder-table", "latin1-is-a-copy", "empty-string-decodes", "entity-instance-classes", "entity-instance-boundaries", "twos-complement-widths", "time-unit-table", "period-encoder-arms", "period-byte-on-the-wire", "extension-parsers", "twos-is-sign-extension", "packed-string-extraction", "checksum-on-the-wire", "read-flags", "bcd-normal-form", "string-decoders-in-bounds", "checksum-shape"},
 }
